@@ -37,11 +37,12 @@ type Reader struct {
 	limit  int
 	EndErr error
 
-	mode Mode
-	plan *Plan
-	segI int
-	seg  int // bytes left in the current segment
-	stut int // consecutive stutters
+	mode  Mode
+	plan  *Plan
+	segI  int
+	seg   int // bytes left in the current segment
+	stut  int // consecutive stutters
+	burst int // zero-length reads still to deliver in the current burst
 
 	Calls     int
 	Delivered int
@@ -143,12 +144,28 @@ func (r *Reader) Read(buf []byte) (int, error) {
 			r.Log = append(r.Log, 0)
 			return 0, nil
 		}
-	} else if r.mode.Stutter && r.stut < 3 && r.c.T.Bool(1, 6) {
-		r.stut++
-		r.c.Ev("read-stutter", int64(len(buf)), 0, 0)
-		r.c.Count("fault.stutter(0,nil)")
-		r.Log = append(r.Log, 0)
-		return 0, nil
+	} else if r.mode.Stutter {
+		// zero-length reads come singly (at most 3 in a row) or, one time in
+		// four, as a burst of 4..8 in a row; always finitely many
+		if r.burst > 0 {
+			r.burst--
+			r.c.Ev("read-stutter", int64(len(buf)), 0, 0)
+			r.c.Count("fault.stutter(0,nil)")
+			r.Log = append(r.Log, 0)
+			return 0, nil
+		}
+		if r.stut < 3 && r.c.T.Bool(1, 6) {
+			r.stut++
+			if r.stut == 1 && r.c.T.Bool(1, 4) {
+				r.burst = 3 + r.c.T.Int(5)
+				r.stut = 3
+				r.c.Count("fault.stutter-burst(4..8 zero-length reads in a row)")
+			}
+			r.c.Ev("read-stutter", int64(len(buf)), 0, 0)
+			r.c.Count("fault.stutter(0,nil)")
+			r.Log = append(r.Log, 0)
+			return 0, nil
+		}
 	}
 	r.stut = 0
 	if r.seg == 0 {
